@@ -164,6 +164,7 @@ struct Seg { uintptr_t addr; size_t size; std::vector<uint8_t> snap; };
 static std::vector<Seg> g_segs;
 static void *g_module;
 static uintptr_t g_mod_lo, g_mod_hi;
+static uintptr_t g_cov_lo, g_cov_hi;   // libFuzzer's inline coverage counters inside the module (fuzz builds)
 
 static std::string short_name (const std::string &n);
 static int phdr_cb (struct dl_phdr_info *info, size_t, void *data) {
@@ -190,6 +191,12 @@ static int phdr_cb (struct dl_phdr_info *info, size_t, void *data) {
 	if (m == MAP_FAILED) return 1;
 	ElfW(Ehdr) *eh = (ElfW(Ehdr) *) m;
 	ElfW(Shdr) *sh = (ElfW(Shdr) *) (m + eh->e_shoff);
+	const char *shstr = (const char *) (m + sh[eh->e_shstrndx].sh_offset);
+	for (int i = 0; i < eh->e_shnum; i++) {
+		if (strcmp (shstr + sh[i].sh_name, "__sancov_cntrs") == 0 || strcmp (shstr + sh[i].sh_name, "__sancov_bools") == 0) {
+			g_cov_lo = info->dlpi_addr + sh[i].sh_addr; g_cov_hi = g_cov_lo + sh[i].sh_size;
+		}
+	}
 	for (int i = 0; i < eh->e_shnum; i++) {
 		if (sh[i].sh_type != SHT_SYMTAB) continue;
 		ElfW(Sym) *st = (ElfW(Sym) *) (m + sh[i].sh_offset);
@@ -1113,6 +1120,7 @@ extern "C" void rt_panic (const char *s) {
 
 static inline void plain_access (uintptr_t addr, size_t size, bool is_write, uintptr_t pc) {
 	if (!g_in_execute) return;
+	if (addr >= g_cov_lo && addr < g_cov_hi) return;   // coverage counter of a fuzz build, not program data
 	g_st.plains++;
 	if (g_st.plains > 4000000) {   // a loop without scheduling points (e.g. over a corrupted list): inconclusive
 		g_st.budget_exceeded = 1;
